@@ -22,14 +22,27 @@ def make_exact(h):
     return (h + 1.0) - 1.0
 
 
+def doc_default_scale(method, n, order):
+    """the documented default scale of MinStepGenerator per (method, n, order) — the harness's own closed form (written from the
+    pinned documentation / source, never read from the library at run time)"""
+    high_order = int(n > 1 or order >= 4)
+    order2 = max(order // 2 - 1, 0)
+    n_4, n_mod_4 = n // 4, n % 4
+    c = [n_4 * (10 + 1.5 * int(n > 10)), 3.65 + n_4 * (5 + 1.5 ** n_4), 3.65 + n_4 * (5 + 1.7 ** n_4),
+         7.30 + n_4 * (5 + 2.1 ** n_4)][n_mod_4] if high_order else 0
+    return ({'multicomplex': 1.06, 'complex': 1.06 + c}.get(method, 2.5) + (n - 1) * {'multicomplex': 0, 'complex': 0.0}.get(method, 1.3)
+            + order2 * {'central': 3, 'forward': 2, 'backward': 2}.get(method, 0))
+
+
 def run(ctx):
     from numdifftools import step_generators as sg
     from numdifftools.step_generators import MinStepGenerator, MaxStepGenerator
     from numdifftools.limits import CStepGenerator
     from numdifftools.finite_difference import LogRule
     from numdifftools import finite_difference as fdm
-    from harness.common import rule_cache
+    from harness.common import rule_cache, reset_rule_cache
     RC = rule_cache(fdm)
+    reset_rule_cache(RC)            # remembers the import-time contents
     import numdifftools as nd
     translator_obligations(ctx, ['StepGen.', 'default_scale', 'defaults', 'basic_generators', 'LogRule.richardson_step',
                                  'LogRule.method_order', 'LogRule.num_terms', 'LogRule._complex_high_order'])
@@ -90,7 +103,7 @@ def run(ctx):
     out = run_driver(lines, 'C10c')
     for (m, n, o), line in zip(cgrid, out):
         eng['cases'] += 1
-        RC.clear()
+        reset_rule_cache(RC)
         d = nd.Derivative(np.exp, n=n, method=m, order=o)
         if m == 'central2':      # Derivative has no central2 difference function; only the rule/generator logic is compared
             r = LogRule(n=n, method=m, order=o)
@@ -109,7 +122,7 @@ def run(ctx):
             if not size - 1 < len(steps):
                 ctx.violation('the default step count is smaller than the rule consumes', method=m, n=n, order=o,
                               rule_size=size, num_steps=len(steps))
-    RC.clear()
+    reset_rule_cache(RC)
 
     # ---------------- engine `steps.sequence`: emitted lists vs the model, random options -------------------------
     eng = ctx.engine('steps.sequence')
@@ -206,6 +219,26 @@ def run(ctx):
                           'documented closed form base_step*step_nom(x)*ratio**(+-i+offset) evaluated in Python, documented defaults '
                           '(EPS**(1/scale), log(1.718+|x|) clipped at 1, ratio 2 / 1.6 / 4), decreasing magnitude, zero steps dropped; '
                           'non-trivial: more than one step; distinct = distinct option set')
+    # the documented default scale per (method, n, order), the complete table of the quantifier (and beyond)
+    for m in METHODS:
+        for n in range(1, 13):
+            for o in range(1, 13):
+                want = doc_default_scale(m, n, o)
+                try:
+                    got = float(sg.default_scale(m, n, o))
+                    gmin = MinStepGenerator()
+                    gmin.step_generator_function(np.asarray(1.0), m, n, o)
+                    got_gen = float(gmin.scale)
+                except Exception as ex:
+                    ctx.violation('default_scale raised %r' % ex, method=m, n=n, order=o)
+                    continue
+                if abs(got - want) > 1e-12 * want or abs(got_gen - want) > 1e-12 * want:
+                    ctx.violation('the default scale (hence the default base step EPS**(1/scale)) differs from the documented value',
+                                  method=m, n=n, order=o, default_scale=got, generator_scale=got_gen, documented=want)
+                    break
+            else:
+                continue
+            break
     for it in range(ctx.budget(400, 5000)):
         cls = rng.choice(['min', 'max', 'c'])
         m, n, o = rng.choice(METHODS), rng.randint(1, 10), rng.randint(1, 10)
@@ -245,7 +278,7 @@ def run(ctx):
         if scale is None:
             scale = {'min': None, 'max': 500, 'c': 1.2}[cls]
         if scale is None:
-            scale = sg.default_scale(m, n, o)
+            scale = doc_default_scale(m, n, o)
         base = opts.get('base_step', 2.0 if cls == 'max' else None)
         if base is None:
             base = EPS ** (1.0 / scale)
